@@ -245,6 +245,7 @@ func main() {
 		if bt := leafPkgs["bt"]; bt != nil {
 			writeValidateFilter(*leafOut, bt, f)
 			writeIncludeCell(*leafOut, bt, f)
+			writeApplyGC(*leafOut, bt, f)
 		}
 	}
 	sort.Strings(f.Unavailable)
